@@ -20,6 +20,8 @@ type ScaleOp struct {
 	Addr string `json:"addr"` // replica | bare | ghost | stale
 	Idx  int    `json:"idx"`
 	N    int    `json:"n"`
+	// PreExit: before the request, the replica with this index (mod current count) ends by itself; stored +1 (0: none)
+	PreExit int `json:"pre_exit"`
 }
 
 type ScaleCase struct {
@@ -95,6 +97,7 @@ func checkScale(c ScaleCase) pbt.Verdict {
 		return m, nil
 	}
 	crossed := false
+	ended := map[string]map[int]bool{"web": {}, "db": {}} // replicas (by number) that ended by themselves
 	for oi, op := range c.Ops {
 		cur := count[op.Proc]
 		addr := ""
@@ -107,6 +110,19 @@ func checkScale(c ScaleCase) pbt.Verdict {
 			addr = "ghost-7"
 		case "stale":
 			addr = refName(op.Proc, cur+5, cur+2) // a name no current replica has
+		}
+		if op.PreExit > 0 {
+			i := (op.PreExit - 1) % cur
+			if !ended[op.Proc][i] {
+				if e.Do(sc.Step{Op: sc.OpExit, Proc: refName(op.Proc, cur, i), Code: 0}) {
+					ended[op.Proc][i] = true
+					v.Labels = append(v.Labels, "ended-replica")
+				}
+				if e.H.Busy != "" {
+					v.Skip = true
+					return v
+				}
+			}
 		}
 		before := liveByName()
 		listBefore, err := listed()
@@ -205,6 +221,13 @@ func checkScale(c ScaleCase) pbt.Verdict {
 		after := liveByName()
 		for i, name := range newNames {
 			l := after[name]
+			if i < cur && ended[op.Proc][i] {
+				// a survivor that had ended stays ended (and stays listed, below)
+				if len(l) != 0 {
+					return fail("op %d: after scaling %s %d->%d the ended replica %q has %d live commands", oi, op.Proc, cur, n, name, len(l))
+				}
+				continue
+			}
 			if len(l) != 1 {
 				var have []string
 				for k := range after {
@@ -234,6 +257,11 @@ func checkScale(c ScaleCase) pbt.Verdict {
 				if cmd.Alive() {
 					return fail("op %d: removed replica %q (inst %d) is still alive", oi, oldNames[i], cmd.Inst)
 				}
+			}
+		}
+		for i := range ended[op.Proc] {
+			if i >= n {
+				delete(ended[op.Proc], i)
 			}
 		}
 		// listing, info, logs: the same set a fresh load with replicas: n gives
@@ -339,6 +367,9 @@ func genScale(t *rapid.T) ScaleCase {
 			op.N = pbt.Pick(t, []int{9, 10, 11, 99, 100, 101, 1, 2})
 		} else {
 			op.N = pbt.Pick(t, []int{-1, 0, 1, 1, 2, 2, 3, 4, 9, 10, 11})
+		}
+		if pbt.Pct(t, 30) {
+			op.PreExit = pbt.Range(t, 1, 8)
 		}
 		c.Ops = append(c.Ops, op)
 	}
